@@ -151,13 +151,15 @@ def compute_cst_propagation_states(lifter, ircfg, init_addr, init_infos):
         symbexec_engine.del_mem_above_stack(lifter.sp)
 
         # Only the constant expressions go to the next blocks: any other
-        # value is written with the registers as they were at the beginning
-        # of this block, and would be read there as the current registers
+        # value (or memory pointer) is written with the registers as they
+        # were at the beginning of this block, and would be read there as the
+        # current registers
         out_state = symbexec_engine.get_state()
         out_state = out_state.__class__(
             dict(
                 (dst, src) for dst, src in out_state
-                if is_expr_cst(lifter, src)
+                if is_expr_cst(lifter, src) and
+                (not dst.is_mem() or is_expr_cst(lifter, dst.ptr))
             )
         )
 
